@@ -82,7 +82,15 @@ let run (args : (string * string) list) : string =
       | None -> add "props" "FAIL(model-refuses)");
      (match parse_properties le (coq_of_string itext) with
       | Some ((pn, pa), pf) -> add "propsback" (ok (pn = st0.s_nodes && pa = st0.s_arcs && pf = f))
-      | None -> add "propsback" "FAIL(unparsable)")
+      | None -> add "propsback" "FAIL(unparsable)");
+     (* the composed loader of the link theorems (C12 o C01): configured ONLY from the
+        implementation's properties text, run on the implementation's stream *)
+     if glen <= 60000 then begin
+       let bits = bits_of_bytes le buf 0 glen in
+       match load_seq le (coq_of_string itext) bits with
+       | Some (lists, _) -> add "load" (ok (lists = g))
+       | None -> add "load" "FAIL(load-error)"
+     end
    | _ -> ());
   (* the expected graph of a CLI transform step, recomputed with the proved specification
      functions of C09 from the source graph *)
